@@ -8,9 +8,9 @@ MCDbAlphabet == <<"x", "/", "_">>
 MCApiAlphabet == <<"x", "/", ".">>
 MCEmpty == <<>>
 MCNoHttpCfg == { [auth |-> TRUE, pprof |-> FALSE] }
-MCHttpNames == <<"api", "database", "t", "x", "write", "ping", "preview", "debug", "vars", "u", "d_clean", "e_clean", "d_e_dirty">>
+MCHttpNames == <<"api", "database", "t", "x", "write", "ping", "preview", "debug", "vars", "u", "s", "a", "b", "d_clean", "e_clean", "d_e_dirty">>
 MCHttpGrant == << <<>>, <<"api">>, <<"api", "t">>, <<"api", "t", "x">>, <<"api", "write">>, <<"api", "preview">>,
-                  <<"database">>, <<"database", "d_clean">> >>
+                  <<"api", "s">>, <<"database">>, <<"database", "d_clean">> >>
 MCHttpCfgs == { [auth |-> TRUE, pprof |-> FALSE], [auth |-> TRUE, pprof |-> TRUE], [auth |-> FALSE, pprof |-> FALSE] }
 MCHttpMethods == <<"GET", "POST", "PATCH", "PUT", "DELETE", "HEAD", "OPTIONS", "TRACE", "get">>
 MCHttpPaths == <<
@@ -28,7 +28,12 @@ MCHttpPaths == <<
     <<"kapacitor", "v1preview", "write">>,
     <<"kapacitor", "v1", "debug", "vars">>,
     <<"kapacitor", "v1", "u">>,
-    <<>> >>
+    <<>>,
+    <<"kapacitor", "v1", "s", "a">>,
+    <<"kapacitor", "v1", "s", "a", "">>,
+    <<"kapacitor", "v1", "s", "">>,
+    <<"kapacitor", "v1", "s">>,
+    <<"kapacitor", "v1", "s", "a", "..", "b">> >>
 MCHttpCreds == <<"none", "basic_ok", "basic_badpw", "basic_nouser", "basic_emptyuser", "basic_admin",
                  "query_ok", "query_badpw", "query_nopw", "badbasic_query_ok",
                  "bearer_ok", "bearer_admin", "bearer_badsig", "bearer_noexp", "bearer_expired", "bearer_nouser",
@@ -36,4 +41,5 @@ MCHttpCreds == <<"none", "basic_ok", "basic_badpw", "basic_nouser", "basic_empty
 MCHttpWriteDbs == << <<"d">>, <<"e">>, <<"d", "/", "e">> >>
 MCTestMethods == {"GET", "POST", "PATCH", "PUT", "DELETE", "HEAD"}
 MCTestPatterns == { <<"t">>, <<"t", "x">> }
+MCTestSubtrees == { <<"s">> }
 =============================================================================
